@@ -277,11 +277,33 @@ def check(ck):
     # the invocation uses the consumed (local) copy, outside the lock
     ck.require(not cl.held(fn_, cn), "C16.5", "%s: callback invoked outside the lock" % q.fn(fn_), "no lock held during the callback",
                "the callback runs while the future's lock is held (a callback that registers again deadlocks)", q.loc(fn_, cn))
+    # the lock of the registration belongs to the future alone: a lock handed in (the pool's own, which enqueue() holds while it
+    # blocks on a full queue) makes the completion wait for an unrelated producer before the callback is invoked
+    finit16 = prog.func(TP, "FutureResult.__init__")
+    gi16 = cfg_of(finit16)
+    lst16 = [n for n in gi16.live_nodes() if n.kind == "stmt" and isinstance(n.ast, ast.Assign) and
+             any(isinstance(t_, ast.Attribute) and dump(t_.value) == "self" and "lock" in t_.attr.lower() for t_ in n.ast.targets)]
+    if not lst16:
+        raise AnalysisError("anchor vanished: the lock created by FutureResult.__init__")
+    for n in lst16:
+        alts16 = prov.value_alts(prov.origin(gi16, n, n.ast.value))
+        okk = all(a[0] == "call" and prov.show(a[1]) in ("threading.Lock", "threading.RLock", "Global(threading).Lock", "Global(threading).RLock")
+                  or (a[0] == "call" and a[1][0] == "attr" and a[1][2] in ("Lock", "RLock")) for a in alts16)
+        ck.require(okk, "C16.5", "%s: `%s`" % (q.fn(finit16), q.stmt_text(n)[:50]), "a lock of its own (threading.Lock())",
+                   "the future's lock can be %s: a lock shared with another object (the pool holds its own while enqueue() blocks on a "
+                   "full queue) delays or dead-locks the invocation of the callback at completion" % sorted(prov.show(a)[:40] for a in alts16),
+                   q.loc(finit16, n))
     fsc = prog.func(TP, "FutureResult.set_callback")
     gs = cfg_of(fsc)
     ds = dominators(gs)
     stores = [n for (n, a, k, _t) in cl.accesses(fsc) if k == "w" and a in shared]
     tests = [n for n in gs.live_nodes() if n.kind == "test" and "is_set()" in dump(n.ast)]
+    # (further stores on paths that never reach the test are clears - `set_callback(None)` un-registering - and store the constant None)
+    def _is_clear(s_):
+        return isinstance(s_.ast, ast.Assign) and isinstance(s_.ast.value, ast.Constant) and s_.ast.value.value is None
+    clears = [s_ for s_ in stores if len(tests) == 1 and s_.id not in ds[tests[0].id] and _is_clear(s_) and
+              tests[0].id not in reachable_avoiding(gs, s_.id, set(), lambda l: True)]
+    stores = [s_ for s_ in stores if s_ not in clears]
     ck.require(len(stores) == 2 and len(tests) == 1 and all(s_.id in ds[tests[0].id] for s_ in stores), "C16.5",
                "%s: registration stored before is_set() is tested" % q.fn(fsc), "store dominates the test",
                "set_callback tests is_set() before the registration is stored: a task that completes in between notifies nobody and the "
@@ -305,5 +327,5 @@ def check(ck):
 
     # ---- C16.8 the reported outcome (shared with C09.3) -----------------------------------------------------------------------
     from rules import c09 as _c09o
-    common.import_rules(ck, _c09o, {"C09.3": "C16.8"})
+    common.import_rules(ck, _c09o, {"C09.3": "C16.8", "C09.1": "C16.8"})      # (C09.1: the future handed back is the one the worker completes)
     ck.floor("C16.8", 12)
